@@ -1,4 +1,5 @@
 import ZenonVerif.Lemmas.PoolMulti
+import ZenonVerif.Lemmas.PoolFilter
 import ZenonVerif.Props.C14
 /-
 C14 — the WHOLE unconfirmed pool: any number of addresses, transactions with several commits (a contract receive with
@@ -131,7 +132,7 @@ example : TxWF ⟨[d1], r2⟩ ∧ TxWF ⟨[], q1⟩ := by decide
     although the pool lists the competitor alone — the transaction is in the pool in part; the modelled `Pop` does not. -/
 theorem pop_head_only_breaks_atomicity :
     let x := (addTx {} ⟨[d1], r2⟩ false).1
-    let bad := (addTxWith Mgr.popHeadOnly x ⟨[], q1⟩ true).1
+    let bad := (addTxWith Mgr.popHeadOnly canRollback (fun _ _ tb => tb) x ⟨[], q1⟩ true).1
     let good := (addTx x ⟨[], q1⟩ true).1
     uncommittedBlocks bad = some [q1] ∧ bad.manager.hasPatch d1.id = true ∧ bad.manager.hasPatch r2.id = false ∧
     uncommittedBlocks good = some [q1] ∧ good.manager.hasPatch d1.id = false := by decide
@@ -238,6 +239,260 @@ theorem after_momentum_confirming_a_prefix (s : PoolSt) (hr : Reachable s) (c : 
   rw [hc, keptBy_whole_prefix h2 h3 hi.1 hi.2.1 k] at this
   simp only [insertMomentum, confirmAll, hc]
   exact this
+
+/-! ### the winner between competing transactions -/
+
+/-- negative part of the winner clause, for the code AS IT IS (known finding FDF1): a transaction that carries at least
+    one descendant block and is not a fast-forward is never inserted — `canRollback` looks one height below its HEAD and
+    compares with `Previous()`, which lies one below its FIRST descendant — whatever its priority, forced or not, in
+    every state; the pool stays as it is. -/
+theorem multi_commit_competitor_refused (x : AState) (t : Tx) (f : Bool) (ht : TxWF t) (hd : t.desc ≠ [])
+    (hff : t.prev ≠ x.manager.frontierId) :
+    (addTx x t f).1 = { x with mgr := some x.manager } ∧
+    ((addTx x t f).2 = .already ∨ (addTx x t f).2 = .olderThanStable ∨ (addTx x t f).2 = .missingPrevious ∨
+      (addTx x t f).2 = .previousMismatch) := by
+  have hlen : 2 ≤ t.commits.length := by
+    cases hdd : t.desc with
+    | nil => exact absurd hdd hd
+    | cons d ds => simp [Tx.commits, hdd]
+  have hh := head_height ht
+  have hcr : ∃ e, PoolMulti.canRollback x.confirmed x.manager t = some e ∧
+      (e = .olderThanStable ∨ e = .missingPrevious ∨ e = .previousMismatch) := by
+    unfold PoolMulti.canRollback
+    by_cases h1 : (lastId x.confirmed).2 ≥ t.head.height
+    · exact ⟨_, by simp [h1], Or.inl rfl⟩
+    · have h2 : ¬ (t.head.height = 1 ∧ t.prev = zeroId) := by intro ⟨a, _⟩; omega
+      simp only [h1, h2, if_false]
+      cases hb : byHeight x.manager.view (t.head.height - 1) with
+      | none => exact ⟨_, rfl, Or.inr (Or.inl rfl)⟩
+      | some tp =>
+        have hth := (byHeight_some hb).2
+        have hne : tp.id ≠ t.prev := by
+          intro he
+          have := congrArg Prod.snd he
+          simp only [Blk.id] at this
+          omega
+        exact ⟨_, by simp [hne], Or.inr (Or.inr rfl)⟩
+  obtain ⟨e, he, hcase⟩ := hcr
+  unfold addTx addTxWith
+  simp only [hff, if_false, he]
+  split
+  · exact ⟨rfl, Or.inl rfl⟩
+  · refine ⟨rfl, Or.inr ?_⟩
+    rcases hcase with h | h | h <;> simp [h]
+
+/-- a receive with one descendant and a competing receive without: by the rule on the heads ([2] < [3]) the first wins -/
+example : higherPriority r2 q1 = .ok ∧ higherPriority q1 r2 = .hashTieBreak := by decide
+
+/-- negative witness (FDF1), the code as it is: the same two transactions leave different pools depending on the arrival
+    order — the one with the descendant is refused when it comes second (also when FORCED), and keeps its place when it
+    comes first because the single block is compared with its descendant ([3] vs [1]) — while the rule on the heads names
+    one winner; the repaired rule `addTxR` leaves that winner in both orders. -/
+theorem winner_depends_on_arrival_order :
+    let single : Tx := ⟨[], q1⟩
+    let multi : Tx := ⟨[d1], r2⟩
+    (addTx (addTx {} single false).1 multi false).1.manager.pooled = [single] ∧
+    (addTx (addTx {} single false).1 multi true).2 = .previousMismatch ∧
+    (addTx (addTx {} multi false).1 single false).1.manager.pooled = [multi] ∧
+    (addTxR (addTxR {} single false).1 multi false).1.manager.pooled = [multi] ∧
+    (addTxR (addTxR {} multi false).1 single false).1.manager.pooled = [multi] := by decide
+
+/-- `winner_by_rule_multi` — for the REPAIRED rule (`addTxR`, fdf1_fix.diff), at full strength: a well-formed
+    transaction `t` with any number of commits that competes with a pooled transaction `p` with any number of commits
+    (same `Previous()`, a head hash not in the pool) is decided by `higherPriority` on the two HEAD blocks alone: it
+    replaces `p` and everything pooled above it iff it is forced or the rule lets it win; otherwise the pool is unchanged
+    and the rule's error is returned. With `C14.priority_total_antisymmetric` / `C14.winner_order_independent` on the head
+    blocks, the survivor is the same on every node whatever the arrival order. -/
+theorem winner_by_rule_multi (x : AState) (hi : PoolMulti.Inv x) (t p : Tx) (pre post : List Tx) (f : Bool) (ht : TxWF t)
+    (hsplit : x.manager.pooled = pre ++ p :: post) (hprev : t.prev = p.prev)
+    (hfresh : ∀ b ∈ flat x.manager.pooled, b.hash ≠ t.head.hash) :
+    (addTxR x t f).2 = (if f = true ∨ higherPriority t.head p.head = .ok then .replaced
+        else if higherPriority t.head p.head = .ratioWorse then .ratioWorse else .hashTieBreak) ∧
+    (addTxR x t f).1.manager.pooled =
+      (if f = true ∨ higherPriority t.head p.head = .ok then pre ++ [t] else x.manager.pooled) := by
+  obtain ⟨hb, hl, hh, hty, hpatch⟩ := PoolMulti.manager_ok hi
+  have hflat : flat x.manager.pooled = flat pre ++ (p.commits ++ flat post) := by rw [hsplit, flat_append, flat_cons]
+  have hl' := hl
+  rw [hflat, linked_append] at hl'
+  obtain ⟨hlpre, hlrest⟩ := hl'
+  have hlrest' : Linked (lastIdFrom (lastId x.confirmed) (flat pre)) (flat (p :: post)) := by rw [flat_cons]; exact hlrest
+  obtain ⟨hpprev, _, _⟩ := (linked_flat_cons _ p post).mp hlrest'
+  have hh' := hh
+  rw [hflat] at hh'
+  obtain ⟨hhpre, _⟩ := heightsOK_append.mp hh'
+  have htp : t.prev = lastIdFrom (lastId x.confirmed) (flat pre) := by rw [hprev, hpprev]
+  have htph : t.prev.2 = (lastId x.confirmed).2 + (flat pre).length := by
+    rw [htp]; exact linked_last_height _ _ hlpre hhpre
+  have hhead := head_height ht
+  have hclen : 1 ≤ t.commits.length := by simp [Tx.commits]
+  have hplen : 1 ≤ p.commits.length := by simp [Tx.commits]
+  have hfront : (x.manager.frontierId).2 = (lastId x.confirmed).2 + (flat x.manager.pooled).length := by
+    rw [PoolMulti.frontierId_eq, hb]; exact linked_last_height _ _ hl hh
+  have hnff : ¬ t.prev = x.manager.frontierId := by
+    intro he
+    have : t.prev.2 = (x.manager.frontierId).2 := by rw [he]
+    rw [hfront, htph, hflat] at this
+    simp only [List.length_append] at this
+    omega
+  have hview : Linked zeroId x.manager.view := by
+    unfold Mgr.view; rw [hb, linked_append]; exact ⟨hi.1, by rw [← lastId_eq]; exact hl⟩
+  have hvh : HeightsOK x.manager.view := heightsOK_append.mpr ⟨by rw [hb]; exact hi.2.1, hh⟩
+  have hconf := chain_last_height _ hi.1 hi.2.1
+  have hpm : p ∈ x.manager.pooled := by rw [hsplit]; simp
+  -- not already there
+  have hnal : ¬ ((byHeight x.manager.view t.head.height).map Blk.id = some t.id) := by
+    intro he
+    cases hbh : byHeight x.manager.view t.head.height with
+    | none => rw [hbh] at he; simp at he
+    | some b =>
+      rw [hbh] at he
+      simp only [Option.map_some, Option.some.injEq] at he
+      obtain ⟨hmem, hbheight⟩ := byHeight_some hbh
+      unfold Mgr.view at hmem
+      rcases List.mem_append.mp hmem with hc | hp
+      · rw [hb] at hc
+        have := (linked_mem_height _ _ hi.1 hi.2.1 b hc).2
+        simp only [zeroId] at this
+        omega
+      · exact hfresh b hp (by have := congrArg Prod.fst he; simpa [Blk.id, Tx.id] using this)
+  have hviewEq : x.manager.view = (x.confirmed ++ flat pre) ++ (p.commits ++ flat post) := by
+    unfold Mgr.view; rw [hb, hflat, List.append_assoc]
+  have hAlen : (x.confirmed ++ flat pre).length = t.prev.2 := by rw [htph, hconf]; simp
+  -- canRollback (repaired) passes
+  have hcr : canRollbackR x.confirmed x.manager t = none := by
+    unfold canRollbackR
+    have h1 : ¬ ((lastId x.confirmed).2 ≥ t.head.height ∨ (lastId x.confirmed).2 > t.prev.2) := by omega
+    simp only [h1, if_false]
+    by_cases hz : t.prev = zeroId
+    · simp [hz]
+    · simp only [hz, if_false]
+      have hA : t.prev = lastId (x.confirmed ++ flat pre) := by rw [lastId_append]; exact htp
+      have hAne : x.confirmed ++ flat pre ≠ [] := by
+        intro he; rw [he] at hA; exact hz hA
+      have hL : 1 ≤ (x.confirmed ++ flat pre).length := List.length_pos_iff.mpr hAne
+      have hLle : (x.confirmed ++ flat pre).length ≤ x.manager.view.length := by rw [hviewEq]; simp
+      have htake : x.manager.view.take (x.confirmed ++ flat pre).length = x.confirmed ++ flat pre := by
+        rw [hviewEq, List.take_left']; rfl
+      have h2 := lastId_take x.manager.view _ hL hLle
+      rw [htake] at h2
+      have h3 := byHeight_chain x.manager.view hview hvh ((x.confirmed ++ flat pre).length - 1) (by omega)
+      have e : (x.confirmed ++ flat pre).length - 1 + 1 = t.prev.2 := by omega
+      rw [e] at h3
+      simp only [h3]
+      rw [← h2, ← hA]; simp
+  -- the competitor found by the repaired lookup is the head of p
+  have hrival : headAt x.manager.view (x.manager.view.length + 1) (t.prev.2 + 1) = some p.head := by
+    have hv : x.manager.view = (x.confirmed ++ flat pre) ++ p.desc ++ [p.head] ++ flat post := by
+      rw [hviewEq]; simp [Tx.commits, List.append_assoc]
+    have := headAt_spec x.manager.view hview hvh p.desc (x.confirmed ++ flat pre) p.head (flat post)
+      (x.manager.view.length + 1) hv (hty p hpm).1 (hty p hpm).2 (by rw [hv]; simp; omega)
+    rw [← hAlen]; exact this
+  -- the rollback reaches the place below p
+  have hj : pre.length ≤ x.manager.pooled.length := by rw [hsplit]; simp
+  have htk : x.manager.pooled.take pre.length = pre := by rw [hsplit, List.take_left']; rfl
+  obtain ⟨m', hroll, hpool, hbase⟩ := rollbackTo_reaches (conf := x.confirmed) (x.manager.pooled.length + 1) x.manager
+    pre.length ⟨hb, hl, hh, hty, hpatch⟩ hj (by omega)
+  rw [htk, ← htp] at hroll
+  rw [htk] at hpool
+  have hfm : t.prev = m'.frontierId := by rw [PoolMulti.frontierId_eq, hbase, hb, hpool]; exact htp
+  have hadd : m'.add t = some { m' with pooled := m'.pooled ++ [t], patches := m'.patches ++ t.commits.map Blk.id } := by
+    simp [PoolMulti.Mgr.add, hfm]
+  unfold addTxR addTxWith
+  simp only [hnff, if_false, hnal, hcr, hrival, hroll, hadd]
+  cases f <;> cases hp : higherPriority t.head p.head <;> simp [AState.manager, hpool]
+
+/-- one-block transactions at a place held by a block that is not a ContractSend: the code as it is and the repaired
+    rule do the same -/
+theorem single_block_rule_unchanged (x : AState) (t : Tx) (f : Bool) (ht : TxWF t) (hd : t.desc = [])
+    (hnc : ∀ b, byHeight x.manager.view t.head.height = some b → isContractSend b.btype = false) :
+    addTx x t f = addTxR x t f := by
+  have h0 : t.head.height ≠ 0 := ht.2.1 t.head (head_mem_commits t)
+  have hp : t.prev = t.head.prev := by simp [Tx.prev, hd]
+  have hp2 : t.prev.2 = t.head.height - 1 := by rw [hp]; simp [Blk.prev, h0]
+  have hcr : PoolMulti.canRollback x.confirmed x.manager t = canRollbackR x.confirmed x.manager t := by
+    have hor : ((lastId x.confirmed).2 ≥ t.head.height ∨ (lastId x.confirmed).2 > t.head.height - 1) ↔
+        (lastId x.confirmed).2 ≥ t.head.height := by omega
+    have hand : (t.head.height = 1 ∧ t.prev = zeroId) ↔ t.prev = zeroId :=
+      ⟨fun h => h.2, fun h => ⟨by have := congrArg Prod.snd h; simp only [zeroId] at this; omega, h⟩⟩
+    unfold PoolMulti.canRollback canRollbackR
+    simp only [hand, hp2]
+    simp only [hor]
+  have hrv : headAt x.manager.view (x.manager.view.length + 1) (t.prev.2 + 1) =
+      byHeight x.manager.view t.head.height := by
+    have e : t.prev.2 + 1 = t.head.height := by omega
+    rw [e]
+    simp only [headAt]
+    cases hb : byHeight x.manager.view t.head.height with
+    | none => rfl
+    | some b => simp [hnc b hb]
+  unfold addTx addTxR addTxWith
+  simp only [hcr, hrv]
+
+/-- `winner_by_rule_multi_partial` — the code AS IT IS: between one-block transactions (every user account, and contract
+    receives that emit nothing) the winner is chosen by the rule on their blocks, in every state of the whole pool.
+    What is missing for the full clause is false of the code (`multi_commit_competitor_refused`,
+    `winner_depends_on_arrival_order`): transactions with descendant blocks. -/
+theorem winner_by_rule_multi_partial (x : AState) (hi : PoolMulti.Inv x) (t p : Tx) (pre post : List Tx) (f : Bool)
+    (ht : TxWF t) (hd : t.desc = []) (hpd : p.desc = [])
+    (hsplit : x.manager.pooled = pre ++ p :: post) (hprev : t.prev = p.prev)
+    (hfresh : ∀ b ∈ flat x.manager.pooled, b.hash ≠ t.head.hash) :
+    (addTx x t f).2 = (if f = true ∨ higherPriority t.head p.head = .ok then .replaced
+        else if higherPriority t.head p.head = .ratioWorse then .ratioWorse else .hashTieBreak) ∧
+    (addTx x t f).1.manager.pooled =
+      (if f = true ∨ higherPriority t.head p.head = .ok then pre ++ [t] else x.manager.pooled) := by
+  obtain ⟨hb, hl, hh, hty, _⟩ := PoolMulti.manager_ok hi
+  have hpm : p ∈ x.manager.pooled := by rw [hsplit]; simp
+  have hflat : flat x.manager.pooled = flat pre ++ (p.commits ++ flat post) := by rw [hsplit, flat_append, flat_cons]
+  have hview : Linked zeroId x.manager.view := by
+    unfold Mgr.view; rw [hb, linked_append]; exact ⟨hi.1, by rw [← lastId_eq]; exact hl⟩
+  have hvh : HeightsOK x.manager.view := heightsOK_append.mpr ⟨by rw [hb]; exact hi.2.1, hh⟩
+  have hl' := hl
+  rw [hflat, linked_append] at hl'
+  have hlrest' : Linked (lastIdFrom (lastId x.confirmed) (flat pre)) (flat (p :: post)) := by rw [flat_cons]; exact hl'.2
+  obtain ⟨hpprev, _, _⟩ := (linked_flat_cons _ p post).mp hlrest'
+  have hh' := hh
+  rw [hflat] at hh'
+  have htph : t.prev.2 = (lastId x.confirmed).2 + (flat pre).length := by
+    rw [hprev, hpprev]; exact linked_last_height _ _ hl'.1 (heightsOK_append.mp hh').1
+  have hhead := head_height ht
+  have hconf := chain_last_height _ hi.1 hi.2.1
+  have hv : x.manager.view = (x.confirmed ++ flat pre) ++ [p.head] ++ flat post := by
+    unfold Mgr.view; rw [hb, hflat]; simp [Tx.commits, hpd, List.append_assoc]
+  have hat := byHeight_at_split x.manager.view hview hvh _ _ _ hv
+  have e : (x.confirmed ++ flat pre).length + 1 = t.head.height := by
+    rw [hhead, htph, hconf]; simp [Tx.commits, hd]
+  rw [e] at hat
+  rw [single_block_rule_unchanged x t f ht hd (fun b hb' => by rw [hat] at hb'; cases hb'; exact (hty p hpm).2)]
+  exact winner_by_rule_multi x hi t p pre post f ht hsplit hprev hfresh
+
+/-- hypotheses of `winner_by_rule_multi` are satisfiable with several commits on both sides -/
+example : ∃ (x : AState) (t p : Tx), PoolMulti.Inv x ∧ TxWF t ∧ t.desc ≠ [] ∧ p.desc ≠ [] ∧ x.manager.pooled = [] ++ p :: [] ∧
+    t.prev = p.prev ∧ (∀ b ∈ flat x.manager.pooled, b.hash ≠ t.head.hash) ∧
+    (addTxR x t false).1.manager.pooled = [t] :=
+  ⟨(addTx {} ⟨[d1], r2⟩ false).1,
+   ⟨[{ d1 with hash := [0] }], { r2 with hash := [0, 1], prevHash := [0] }⟩, ⟨[d1], r2⟩,
+   (addTx_shape (show PoolMulti.Inv ({} : AState) from ⟨trivial, fun _ h => by simp at h, fun _ h => by simp at h⟩)
+     _ _ (by decide)).1,
+   by decide, by decide, by decide, by decide, by decide, by decide, by decide⟩
+
+/-! ### the content offered for production -/
+
+/-- `offered_content_well_formed_partial`: what the pool offers for a momentum (`GetNewMomentumContent`, for every
+    enumeration order of the managers) is a prefix of the concatenated pools, at most the limit long, and ends at a batch
+    boundary — never between a contract's descendant sends and the receive that carries them. Together with
+    `after_momentum_confirming_a_prefix` (a momentum that confirms the first k pooled transactions of an address leaves
+    exactly the others) this is the content clause. NOT proved here: that the part of that prefix belonging to one
+    address is `flat (pooled.take k)` for some k (a projection of a prefix of a concatenation of per-address chains); the
+    pool-multi stream checks that sentence on the real pool after every offer and inserts exactly the offered content. -/
+theorem offered_content_well_formed_partial (max : Nat) (s : PoolSt) (order : List Addr) (o all : List (Addr × Blk))
+    (hall : allUncommitted s order = some all) (ho : offered max s order = some o) :
+    o <+: all ∧ o.length ≤ max ∧ ∀ e, o.getLast? = some e → isContractSend e.2.btype = false := by
+  simp only [offered, hall, Option.map_some, Option.some.injEq] at ho
+  subst ho
+  refine ⟨?_, ?_, ?_⟩
+  · simpa using filterGo_prefix (fun e : Addr × Blk => isContractSend e.2.btype) max all [] []
+  · exact filterGo_length _ max all [] [] (by simp)
+  · exact filterGo_boundary (fun e : Addr × Blk => isContractSend e.2.btype) max all [] [] (fun _ h => by simp at h)
 
 example : ∃ s, Reachable s ∧ (flat (s 0).manager.pooled).length = 2 ∧ (s 1).manager.pooled.length = 1 :=
   ⟨step (step PoolSt.empty (.add 0 ⟨[d1], r2⟩ false)) (.add 1 ⟨[], u1⟩ false),
